@@ -19,16 +19,44 @@ from beanquery.parser import ast  # noqa: E402
 _MASTERS = {}
 
 
-def clone(node):
-    """Structural clone of an AST: new Node objects, shared leaves/parseinfo."""
+def clone(node, repl=None):
+    """Structural clone of an AST: new Node objects, shared leaves/parseinfo.
+    `repl` maps id(node) -> replacement node factory (used for substitution)."""
     if isinstance(node, ast.Node):
+        if repl is not None and id(node) in repl:
+            return repl[id(node)]()
         kw = {}
         for f in dataclasses.fields(node):
-            kw[f.name] = clone(getattr(node, f.name))
+            kw[f.name] = clone(getattr(node, f.name), repl)
         return type(node)(**kw)
     if isinstance(node, list):
-        return [clone(x) for x in node]
+        return [clone(x, repl) for x in node]
     return node
+
+
+def const_node(v):
+    """The AST the parser produces for the literal spelling of `v`."""
+    import decimal
+    if isinstance(v, (int, decimal.Decimal)) and not isinstance(v, bool) and v < 0:
+        return ast.Neg(operand=ast.Constant(value=-v))
+    if isinstance(v, list):
+        return ast.Constant(value=list(v))
+    return ast.Constant(value=v)
+
+
+def substituted(text, values):
+    """AST of `text` (written with %s placeholders) with the placeholders, in
+    textual order, replaced by the literal nodes of `values`: the AST of the
+    statement with the parameter values written as literals, without paying
+    for another TatSu parse."""
+    kind, m = master(text)
+    if kind == 'err':
+        raise m
+    phs = sorted((n for n in m.walk() if isinstance(n, ast.Placeholder)), key=lambda n: n.parseinfo.pos)
+    if len(phs) != len(values):
+        raise core.HarnessError(f'{len(phs)} placeholders, {len(values)} values in {text!r}')
+    repl = {id(p): (lambda v=v: const_node(v)) for p, v in zip(phs, values)}
+    return clone(m, repl)
 
 
 def master(text):
